@@ -18,6 +18,37 @@ Record queue := { mem : list val;      (* _deq / _oset, first in first *)
                   stale : bool }.
 Definition fresh (pre : list val) : queue := {| mem := pre; stale := true |}.
 
+(* ---- how a queue enters a Hold (hio.base.hier.holding.Hold / hio.help.mining.Mine) ----
+   Every entry point stores the item and then hands (key, value) to Hold.inject.  Hold.update
+   with a positional non-Mapping iterable walks its argument ONCE, materialising the list [ri],
+   and injects from [ri]; an iterable may be single-pass (zip, generator, iterator). *)
+Inductive source := Reiterable | OneShot.
+Record iterable (A : Type) := { it_items : list A; it_src : source; it_used : bool }.
+Arguments it_items {A}. Arguments it_src {A}. Arguments it_used {A}.
+Definition walk {A} (it : iterable A) : list A * iterable A :=
+  (match it_src it, it_used it with OneShot, true => [] | _, _ => it_items it end,
+   {| it_items := it_items it; it_src := it_src it; it_used := true |}).
+
+Inductive entry :=
+| ESetItem                        (* hold[k] = q *)
+| ESetAttr                        (* hold.k = q  ->  __setitem__ *)
+| EUpdateMap                      (* hold.update({k: q}) *)
+| EUpdatePairs (src : source)     (* hold.update([(k, q)]) / update(zip(..)) / generator / iterator *)
+| EUpdateKw                       (* hold.update(k=q) *)
+| ECtorMap | ECtorPairs (src : source) | ECtorKw.   (* Hold(...) = update(...) on a new Hold *)
+
+(* the items Hold hands to inject(), in order, given the items of its argument *)
+Definition hold_enter {A} (e : entry) (items : list A) : list A :=
+  match e with
+  | ESetItem | ESetAttr => items                 (* __setitem__: store, then inject(k, v) *)
+  | EUpdateMap | ECtorMap => items               (* rd = {tokey(k): v ...}; for k, v in rd.items(): inject *)
+  | EUpdateKw | ECtorKw => items                 (* for k, v in kwa.items(): inject *)
+  | EUpdatePairs src | ECtorPairs src =>
+    let (ri, _) := walk {| it_items := items; it_src := src; it_used := false |} in
+                                                 (* for k, v in di: ri.append((tokey(k), v)) *)
+    ri                                           (* for k, v in ri: inject(k, v) *)
+  end.
+
 Inductive qop :=
 | Push (v : val)
 | PushNone
@@ -29,6 +60,8 @@ Inductive qop :=
 | Sync (force : bool)
 | Reopen (pre : list val)       (* store closed and reopened; a NEW queue object preloaded with
                                    [pre] is injected at the same key (Hold.inject -> sync) *)
+| Enter (e : entry) (pre : list val)  (* a NEW queue object preloaded with [pre] enters the Hold at the
+                                        key through entry point e; [Reopen pre] is the abstract step *)
 (* rejected operations: an argument that is not a RegDom / IceRegDom instance (it has no
    serialisation, so it is not a [val]) *)
 | ExtendBad (pre post : list val) (* extend / update of the batch  pre ++ [invalid] ++ post *)
@@ -139,6 +172,12 @@ Section Durq.
         end
       else (s, st, Exc AttrErr)
     | Sync force => gsync set q s st force
+    | Enter e pre =>
+      match hold_enter e [pre] with
+      | [pre'] => gsync set q s (fresh (if set then oset_update [] pre' else pre')) false
+      | _ =>      (* stored in the Hold but never handed to inject: not durable *)
+        (s, fresh (if set then oset_update [] pre else pre), Ok (RBool false))
+      end
     (* the validation loop runs over the whole batch BEFORE anything is touched *)
     | ExtendBad _ _ | PushBad => (s, st, Exc HierErr)
     | RemoveBad => if set then (s, st, Exc HierErr) else (s, st, Exc AttrErr)
@@ -187,7 +226,7 @@ Section Durq.
     (* a rejected operation leaves the content as it is *)
     | ExtendBad _ _ | PushBad | RawPutBad _ _ | RawAddBad => (l, Exc HierErr)
     | RemoveBad => (l, if set then Exc HierErr else Exc AttrErr)
-    | Reopen pre =>
+    | Reopen pre | Enter _ pre =>
       match l with
       | [] => (if set then dedupe pre else pre, Ok (RBool true))
       | _ => (l, Ok (RBool true))
@@ -239,7 +278,7 @@ Definition qweight (pyeq : val -> val -> bool) (set : bool) (st : queue) (o : qo
   | Push _ => 1
   | Extend vs => N.of_nat (length vs)
   | Sync _ => N.of_nat (length (mem st))
-  | Reopen pre => N.of_nat (length (if set then oset_update pyeq [] pre else pre))
+  | Reopen pre | Enter _ pre => N.of_nat (length (if set then oset_update pyeq [] pre else pre))
   | _ => 0
   end.
 (* ... over a history (the queue states are those of the dictionary-level run) *)
@@ -302,9 +341,9 @@ Definition qop_index (o : qop) : nat :=
   match o with
   | Push _ => 0 | PushNone => 1 | Extend _ => 2 | Pull _ => 3 | Clear => 4 | Count _ => 5
   | Remove _ => 6 | Sync _ => 7 | Reopen _ => 8 | ExtendBad _ _ => 9 | PushBad => 10
-  | RemoveBad => 11 | RawPutBad _ _ => 12 | RawAddBad => 13
+  | RemoveBad => 11 | RawPutBad _ _ => 12 | RawAddBad => 13 | Enter _ _ => 14
   end.
-Definition n_branches : nat := 84.
+Definition n_branches : nat := 90.
 Definition case_branches (c : case) : list nat :=
-  map (fun p => ((if c_set c then 42 else 0) + qop_index (snd (fst p)) * 3 + outcome (sn_res (snd p)))%nat)
+  map (fun p => ((if c_set c then 45 else 0) + qop_index (snd (fst p)) * 3 + outcome (sn_res (snd p)))%nat)
       (combine (c_ops c) (qrun (pyeq_of (c_eq c)) (c_set c) store0 queues0 (c_ops c))).
